@@ -53,6 +53,22 @@ def three_filters(rep, n_cases):
         got = {'lazy': a, 'eager': b, 'catch': c, 'prefetch2': d, 'prefetch1': e}
         if any(g != want for g in got.values()):
             bad.append({'values': vals, 'pred': pred.spec, 'want': want, 'got': got})
+        # a predicate is judged by its truth value: ints, None, strings and containers are legitimate results
+        kind = rng.choice(['x % m', 'x // m', 'None or x', 'list'])
+        truthy = {'x % m': lambda x: x % m, 'x // m': lambda x: x // m, 'None or x': lambda x: (None if x % m == r else x + 100),
+                  'list': lambda x: [x] * (x % m)}[kind]
+        with warnings.catch_warnings():
+            warnings.simplefilter('ignore')
+            ds = lazy_dataset.new(src)
+            a = run_stream(lambda: ds.filter(truthy))
+            b = run_stream(lambda: ds.filter(truthy, lazy=False))
+            bi = run_stream(lambda: [kv[1] for kv in ds.filter(truthy, lazy=False).items()]) if isinstance(src, dict) else None
+        want = {'vals': [v for v in vals if truthy(v)], 'err': None}
+        got = {'lazy': a, 'eager': b}
+        if bi is not None:
+            got['eager items()'] = bi
+        if any(g != want for g in got.values()):
+            bad.append({'values': vals, 'pred': 'truthy non-bool: ' + kind, 'm': m, 'r': r, 'want': want, 'got': got})
     return bad
 
 
